@@ -143,6 +143,18 @@ func suiteConvertRich(R *runner, r *rng) {
 			case "ssa":
 				d := randSsaDoc(r)
 				for i := range d.Events {
+					// empty lines are not representable in every destination (a blank line ends a SubRip/WebVTT cue): keep the
+					// lines that have runs
+					var kept [][]ssaRunGT
+					for _, l := range d.Events[i].Lines {
+						if len(l) > 0 {
+							kept = append(kept, l)
+						}
+					}
+					if len(kept) == 0 {
+						kept = [][]ssaRunGT{{{Text: "x"}}}
+					}
+					d.Events[i].Lines = kept
 					var ls []string
 					for j := range d.Events[i].Lines {
 						t := ""
